@@ -9,6 +9,7 @@ import (
 	"sort"
 	"strings"
 	"testing"
+	"time"
 
 	"verif/hx"
 	"verif/vrt"
@@ -23,6 +24,7 @@ type c05sym struct {
 	wire   func(n int, size int) string
 	routed func(n int) string // expected catch-all log entry ("" = not a stanza: not asserted)
 	isR    bool
+	nonza  string // for a non-stanza element: how the catch-all route's log shows it (it is a received packet too)
 }
 
 func c05pad(size int) string {
@@ -50,11 +52,11 @@ var c05alphabet = []c05sym{
 	{name: "iq-error", wire: func(n, sz int) string {
 		return fmt.Sprintf("<iq from='example.org' id='e%d' type='error'><error type='cancel'><item-not-found xmlns='urn:ietf:params:xml:ns:xmpp-stanzas'/></error></iq>", n)
 	}, routed: func(n int) string { return fmt.Sprintf("iq:e%d:error", n) }},
-	{name: "r", wire: func(n, sz int) string { return "<r xmlns='urn:xmpp:sm:3'/>" }, isR: true},
-	{name: "a", wire: func(n, sz int) string { return "<a xmlns='urn:xmpp:sm:3' h='1'/>" }},
+	{name: "r", wire: func(n, sz int) string { return "<r xmlns='urn:xmpp:sm:3'/>" }, isR: true, nonza: "r"},
+	{name: "a", wire: func(n, sz int) string { return "<a xmlns='urn:xmpp:sm:3' h='1'/>" }, nonza: "a:1"},
 	{name: "features", wire: func(n, sz int) string {
 		return "<stream:features><bind xmlns='urn:ietf:params:xml:ns:xmpp-bind'/></stream:features>"
-	}},
+	}, nonza: "stream:features"},
 	{name: "space", wire: func(n, sz int) string { return " \n\t" }},
 }
 
@@ -91,6 +93,7 @@ type c05cfg struct {
 	drop        bool // connection lost right after the last element
 	gate        bool // the handler entered first waits for a second one to be entered (client only)
 	eofWithData bool // with drop: the read that returns the last bytes also reports the end of the connection
+	idleFirst   bool // keepalive every 7 s; the session is left idle for 13 s (one keepalive and 6 s more) before anything arrives
 }
 
 func c05body(cfg c05cfg, first []int, maxLen int) func() {
@@ -121,7 +124,11 @@ func c05body(cfg c05cfg, first []int, maxLen int) func() {
 			}
 			routed, sc, connect = end.routed, end.sc, end.connect
 		} else {
-			s := newSess(sessOpts{sm: cfg.sm, smResume: cfg.sm, keepalive: 3600, noCatchAll: cfg.gate})
+			ka := int64(3600)
+			if cfg.idleFirst {
+				ka = 7
+			}
+			s := newSess(sessOpts{sm: cfg.sm, smResume: cfg.sm, keepalive: ka, noCatchAll: cfg.gate})
 			if s.cl == nil {
 				return
 			}
@@ -159,6 +166,10 @@ func c05body(cfg c05cfg, first []int, maxLen int) func() {
 			return
 		}
 		vrt.WaitIdle()
+		if cfg.idleFirst {
+			vrt.Sleep(13 * time.Second)
+			vrt.WaitIdle()
+		}
 		conn := sc()
 		conn.drainNew()
 		conn.pending = nil
@@ -203,6 +214,23 @@ func c05body(cfg c05cfg, first []int, maxLen int) func() {
 		who := "client"
 		if cfg.comp {
 			who = "component"
+		}
+		// non-stanza elements are received packets as well: each reaches the router once
+		wantNonza, gotNonza := map[string]int{}, map[string]int{}
+		for _, k := range seq {
+			if nz := c05alphabet[k].nonza; nz != "" {
+				wantNonza[nz]++
+			}
+		}
+		for _, r := range *routed {
+			if _, ok := wantNonza[r]; ok || r == "r" || r == "a:1" || r == "stream:features" {
+				gotNonza[r]++
+			}
+		}
+		for _, nz := range []string{"r", "a:1", "stream:features"} {
+			if gotNonza[nz] != wantNonza[nz] && !(cfg.drop && gotNonza[nz] < wantNonza[nz] && false) {
+				vrt.Fail("C05|non-stanza-element-routing|"+who+"|"+nz, "%s sm=%v, inbound %s (seg=%s drop=%v): %q reached the router %d times, received %d times (routed %v)", who, cfg.sm, hist, cfg.seg, cfg.drop, nz, gotNonza[nz], wantNonza[nz], *routed)
+			}
 		}
 		if cfg.comp {
 			if strings.Join(got, ",") != strings.Join(want, ",") {
@@ -315,6 +343,11 @@ func TestVerifC05(t *testing.T) {
 				}
 			}
 		}
+	}
+	for a := range c05alphabet {
+		cfg := c05cfg{sm: true, seg: "whole", size: 1, idleFirst: true}
+		scs = append(scs, hx.Scenario{Name: fmt.Sprintf("idle-first/first=%s", c05alphabet[a].name),
+			Opt: vrt.Options{Bound: 0, Horizon: 100000}, Body: c05body(cfg, []int{a}, 2), Verdict: c05verdict(cfg)})
 	}
 	for a := range c05alphabet {
 		for _, sm := range []bool{false, true} {
